@@ -312,8 +312,10 @@ class Run:
                              "tools/extract (Go AST/types pattern extractor)", "correspondence harness + canonicalisation"]
         self.notes = []
         self.known_hit = []
+
+    def clean_replays(self):
         for f in os.listdir(REPLAYS):          # replays of earlier runs of this property are stale
-            if f.startswith(prop + "_"):
+            if f.startswith(self.prop + "_"):
                 try:
                     os.remove(os.path.join(REPLAYS, f))
                 except OSError:
